@@ -18,6 +18,7 @@ import (
 	"math/rand"
 	"strings"
 	"sync"
+	"testing/fstest"
 
 	"github.com/ichiban/prolog"
 	"github.com/ichiban/prolog/engine"
@@ -385,6 +386,11 @@ func genC05Text(r *rand.Rand, n int, tier string) []string {
 	for l := 1; l <= k; l++ {
 		c05Enumerate(c05Small, l, func(toks []c05Tok) { add("ex", c05Render(toks)) })
 	}
+	nload := 150
+	if tier == "thorough" {
+		nload = 3000
+	}
+	out = append(out, genC05Load(r, nload)...)
 	base := len(out)
 	for len(out)-base < n {
 		toks := g.clause()
@@ -465,6 +471,9 @@ func c05TextResult(ok bool, err error) string {
 func runC05Text(payload string) string {
 	c05Dir()
 	f := strings.Fields(payload)
+	if len(f) > 0 && f[0] == "load" {
+		return runC05Load(f[1:])
+	}
 	if len(f) != 2 || !strings.HasPrefix(f[1], "T") {
 		panic("bad c05.text case: " + payload)
 	}
@@ -682,4 +691,143 @@ func runC05Parse(payload string) string {
 		nt = 1
 	}
 	return fmt.Sprintf("%s ### nt=%d len=%d oks=%d errs=%d", strings.Join(res, " ; "), nt, len(toks), oks, errs)
+}
+
+// ---------------------------------------------------------------------------
+// loader cases of c05.text: a file system in memory (fstest.MapFS assigned to the interpreter's FS) and an
+// action — consult(File) or Exec(text) — over files that include / ensure_loaded / consult each other.
+//   payload:  load F<name>:T<enc text> … (C<file> | X<enc text>)
+// ---------------------------------------------------------------------------
+
+func c05LoadCase(files map[string]string, order []string, action string) string {
+	var sb strings.Builder
+	sb.WriteString("load")
+	for _, n := range order {
+		sb.WriteString(" F" + n + ":T" + encName(files[n]))
+	}
+	sb.WriteString(" " + action)
+	return sb.String()
+}
+
+func genC05Load(r *rand.Rand, n int) []string {
+	var out []string
+	fixed := []struct {
+		files  map[string]string
+		action string
+	}{
+		{map[string]string{"a.pl": ":- include(a)."}, "Ca"},                                                        // self include
+		{map[string]string{"a.pl": ":- include(a)."}, "X" + encName(":- include(a).")},                             // … from Exec
+		{map[string]string{"a.pl": "p(1). :- include('a.pl'). p(2)."}, "Ca"},                                       // … by its full name
+		{map[string]string{"a.pl": ":- include(b).", "b.pl": ":- include(a)."}, "Ca"},                              // 2-cycle
+		{map[string]string{"a.pl": "a. :- include(b).", "b.pl": "b. :- include(c).", "c.pl": "c. :- include(a)."}, "Ca"}, // 3-cycle
+		{map[string]string{"a.pl": ":- include(b).", "b.pl": ":- ensure_loaded(a)."}, "Ca"},                        // include of a file that ensure_loaded's the includer
+		{map[string]string{"a.pl": ":- ensure_loaded(b).", "b.pl": ":- include(a)."}, "Ca"},
+		{map[string]string{"a.pl": ":- include(b).", "b.pl": ":- consult(a)."}, "Ca"},
+		{map[string]string{"a.pl": ":- initialization(consult(a))."}, "Ca"},
+		{map[string]string{"a.pl": "a. :- include(b). a2.", "b.pl": "b. :- include(c).", "c.pl": "c."}, "Ca"},      // a chain, no cycle
+		{map[string]string{"a.pl": ":- include(b). :- include(c).", "b.pl": ":- include(d).", "c.pl": ":- include(d).", "d.pl": "d."}, "Ca"}, // diamond
+		{map[string]string{"a.pl": ":- include(b). :- include(b).", "b.pl": ":- dynamic(q/1). q(1)."}, "Ca"},       // the same file twice, no cycle
+		{map[string]string{"a.pl": ":- include(nofile)."}, "Ca"},
+		{map[string]string{"a.pl": ":- include(X)."}, "Ca"},
+		{map[string]string{"a.pl": ":- include(1)."}, "Ca"},
+		{map[string]string{"a.pl": ":- include([a])."}, "Ca"},
+		{map[string]string{"a.pl": ":- include('')."}, "Ca"},
+		{map[string]string{"a.pl": ":- ensure_loaded(a)."}, "Ca"},
+		{map[string]string{"a.pl": ":- consult(a)."}, "Ca"},
+		{map[string]string{"a.pl": ":- [a]."}, "Ca"},
+	}
+	for _, c := range fixed {
+		var order []string
+		for _, nm := range []string{"a.pl", "b.pl", "c.pl", "d.pl"} {
+			if _, ok := c.files[nm]; ok {
+				order = append(order, nm)
+			}
+		}
+		out = append(out, c05LoadCase(c.files, order, c.action))
+	}
+	// random load graphs over four files
+	names := []string{"a", "b", "c", "d"}
+	for k := 0; k < n; k++ {
+		files := map[string]string{}
+		var order []string
+		nf := 1 + r.Intn(4)
+		for fi := 0; fi < nf; fi++ {
+			var sb strings.Builder
+			for l := r.Intn(4); l >= 0; l-- {
+				target := names[r.Intn(nf)]
+				switch r.Intn(9) {
+				case 0, 1, 2:
+					fmt.Fprintf(&sb, ":- include(%s). ", target)
+				case 3:
+					fmt.Fprintf(&sb, ":- ensure_loaded(%s). ", target)
+				case 4:
+					fmt.Fprintf(&sb, ":- consult(%s). ", target)
+				case 5:
+					fmt.Fprintf(&sb, ":- initialization(consult(%s)). ", target)
+				case 6:
+					fmt.Fprintf(&sb, ":- include('%s.pl'). ", target)
+				default:
+					fmt.Fprintf(&sb, "%s(%d). ", names[fi], l)
+				}
+			}
+			files[names[fi]+".pl"] = sb.String()
+			order = append(order, names[fi]+".pl")
+		}
+		action := "C" + names[r.Intn(nf)]
+		if r.Intn(4) == 0 {
+			action = "X" + encName(fmt.Sprintf(":- include(%s).", names[r.Intn(nf)]))
+		}
+		out = append(out, c05LoadCase(files, order, action))
+	}
+	return out
+}
+
+func runC05Load(f []string) string {
+	fsys := fstest.MapFS{}
+	action := ""
+	for _, w := range f {
+		switch {
+		case strings.HasPrefix(w, "F"):
+			k := strings.Index(w, ":T")
+			if k < 0 {
+				panic("bad load case: " + w)
+			}
+			text, err := decName(w[k+2:])
+			must(err)
+			fsys[w[1:k]] = &fstest.MapFile{Data: []byte(text)}
+		default:
+			action = w
+		}
+	}
+	i, _ := newInterp("")
+	i.FS = fsys
+	ctx, cancel := context.WithTimeout(context.Background(), c05GoalTimeout)
+	defer cancel()
+	var res string
+	var err error
+	switch {
+	case strings.HasPrefix(action, "C"):
+		ok := false
+		_, err = engine.Call(&i.VM, compound("consult", atom(action[1:])), func(*engine.Env) *engine.Promise {
+			ok = true
+			return engine.Bool(true)
+		}, nil).Force(ctx)
+		res = c05TextResult(ok, err)
+	case strings.HasPrefix(action, "X"):
+		text, derr := decName(action[1:])
+		must(derr)
+		err = i.ExecContext(ctx, text)
+		res = c05TextResult(true, err)
+	default:
+		panic("bad load action: " + action)
+	}
+	host := hostRenderErr(err)
+	if host == "" {
+		host = "ok"
+	}
+	nt := 0
+	if res != "ok" {
+		nt = 1
+	}
+	return fmt.Sprintf("l %s ; host %s ### nt=%d kind=load l=%s files=%d", res, host, nt, strings.Fields(res)[0], len(fsys))
 }
